@@ -133,8 +133,15 @@ def rule_a(repo, res):
     res.check(ok, "C04.a", "offset:opposite-sign", "%s:remove_offset_component" % rm_mod.rel, "offset_component applies %s, remove_offset_component applies %s" % (uo, ur), by="same amounts, opposite sign, same guards")
     # the component loop ranges cover the whole component on both sides
     def full_scan(fn):
-        t = norm(fn)
-        return ("range(height(comp_data))" in t or "range(0, height(comp_data))" in t) and ("range(width(comp_data))" in t or "range(0, width(comp_data))" in t)
+        from ..core import pfind
+
+        a = fn.args.args[1].arg
+        outer = None
+        for pat in ("for X_y in range(height(%s)):\n    STMTS_" % a, "for X_y in range(0, height(%s)):\n    STMTS_" % a):
+            outer = outer or pfind(pat, fn)[0]
+        if outer is None:
+            return False
+        return any(pfind(pat, outer)[0] is not None for pat in ("for X_x in range(width(%s)):\n    STMTS_" % a, "for X_x in range(0, width(%s)):\n    STMTS_" % a))
 
     res.check(full_scan(off) and full_scan(rem), "C04.a", "offset:full-scan", "%s:remove_offset_component" % rm_mod.rel, "both must visit every sample of the component", by="full height x width scan")
 
